@@ -272,6 +272,8 @@ def _builtin(ex, st, c, callee, args, fn):
     m = re.match(r'^(?:std::option::|core::option::)?Option::(\w+)$', c)
     if m:
         k = m.group(1); v = _val(ex, st, args[0])
+        if isinstance(v, Opaque) and k in ('unwrap', 'expect', 'unwrap_or_default'):
+            return Opaque('unwrap(%s)' % v.tag)
         if not isinstance(v, Enum):
             return NotImplemented
         d = v.disc()
@@ -312,6 +314,8 @@ def _builtin(ex, st, c, callee, args, fn):
     m = re.match(r'^(?:std::result::|core::result::)?Result::(\w+)$', c)
     if m:
         k = m.group(1); v = _val(ex, st, args[0])
+        if isinstance(v, Opaque) and k in ('unwrap', 'expect', 'unwrap_or_default'):
+            return Opaque('unwrap(%s)' % v.tag)
         if not isinstance(v, Enum):
             return NotImplemented
         d = v.disc()
@@ -364,7 +368,7 @@ def _builtin(ex, st, c, callee, args, fn):
         v = args[0]
         if isinstance(v, Struct) and v.f and v.f[0] is not None:
             return v.f[0]
-        raise EngineError('assume_init of uninitialised memory')
+        raise Panic('assume_init of uninitialised memory (undefined behaviour)')
     if re.search(r'(^|::)mem::size_of$', c) or c.endswith('::size_of') or c == 'size_of':
         m = re.search(r'size_of::<(.+)>$', callee.strip())
         if m:
@@ -388,7 +392,7 @@ def _builtin(ex, st, c, callee, args, fn):
             k = n.as_long() * sz
             return Ptr(p.region, p.off + (k if m.group(2) != 'sub' else -k))
         raise EngineError('pointer arithmetic on %r' % (p,))
-    if re.search(r'ptr::null(_mut)?$', c):
+    if re.search(r'(^|::)null(_mut)?$', c):
         return Opaque('null')
     if re.search(r'ptr::(const_ptr|mut_ptr)::<impl \*(const|mut) .+>::is_null$', c):
         p = args[0]
